@@ -32,6 +32,7 @@ type Case struct {
 	Params  map[string]int         `json:"params"`
 	Known   map[string]bool        `json:"known"`
 	Scale   int                    `json:"scale"`
+	PadTo   int                    `json:"pad_to"`
 }
 
 type AssertRec struct {
@@ -161,6 +162,13 @@ func inputBytes(name string, n int, alphabet string) []byte {
 
 // scaled repeats the input when the case asks for it (replay of counterexamples that need a payload beyond one inflate window)
 func scaled(b []byte) []byte {
+	if cur.c.PadTo > 0 && len(b) > 0 {
+		out := make([]byte, cur.c.PadTo)
+		for i := range out {
+			out[i] = b[i%len(b)]
+		}
+		return out
+	}
 	if cur.c.Scale <= 1 || len(b) == 0 {
 		return b
 	}
